@@ -1157,7 +1157,7 @@ class PSBTIn:
                     raise ValueError(
                         "witness UTXO does not match the previous transaction's output"
                     )
-        if self.prev_out:
+        if self.prev_out or (self.witness_script and script_pubkey):
             # witness input
             if not (
                 script_pubkey.is_p2sh()
@@ -1180,7 +1180,7 @@ class PSBTIn:
                         )
                     s256 = self.redeem_script.commands[1]
                 else:
-                    s256 = self.prev_out.script_pubkey.commands[1]
+                    s256 = script_pubkey.commands[1]
                 if self.witness_script.sha256() != s256:
                     raise ValueError(
                         "WitnessScript sha256 and output sha256 do not match"
